@@ -98,6 +98,22 @@ func c08State(s *store.Store, fanout int, root cid.Cid, rootSize uint64, set map
 			viol("panic read-reference", fmt.Sprintf("%s: %v", desc, pv))
 		}
 	}
+	// the whole-directory operations in every order, each on a fresh node: what
+	// a listing or a lookup leaves behind on the node must not change the
+	// count, and the other way round
+	if p, pv := core.Guard(func() {
+		dirOpOrders(func() (ipld.Node, error) {
+			rn, err := loadRoot(ls, root)
+			if err != nil {
+				return nil, err
+			}
+			return openVia("Reify", ls, rn)
+		}, want, len(want) <= 3, func(sig, detail string) {
+			viol("read-reference "+sig, desc+": "+detail)
+		})
+	}); p {
+		viol("panic read-reference op-orders", fmt.Sprintf("%s: %v", desc, pv))
+	}
 	// the same through a link system that reifies every node it loads
 	if p, pv := core.Guard(func() {
 		lr := lsReifying(s)
